@@ -359,6 +359,26 @@ PROPS['C13'] = {
 }
 
 
+PROPS['C05'] = {
+    'theorems': ['RQ.Abs.C05_apply_refines', 'RQ.Abs.C05_exit_and_names'],
+    'verdict': 'SPEC',
+    'jobs': push_jobs(['inv=2', 'patches=5'], ['inv=3', 'patches=6']),
+    'nontrivial': push_nontrivial,
+    'histogram': push_hist,
+    'rule': PUSH_RULE,
+    'explanation': "Theorem C05_apply_refines: for every file system, configuration and range, the driver model's application "
+                   "loop (ModifiedFile cache, partial application of the failing patch, LIFO rollback incl. rename undo, reject "
+                   "rendering) computes exactly RQ.Abs.applyRange - file patches applied to the tree one after another, the "
+                   "first patch with a failing hunk discarded as a whole: same number k of applied patches, same reject files, "
+                   "same tree (pointwise over all names); or both fail with the same error kind. C05_exit_and_names: exit 0 "
+                   "iff k = |range|, k names appended. The flush of the memory to disk is tied to pushSpec by the run: exit "
+                   "status and the whole real tree must equal pushSpec (tree = first k patches, rejects, backups, applied-patches).",
+    'trusted': PUSH_TRUSTED,
+    'assumptions': ["the save phase (saveAll/cleanAll) is related to the specification by the correspondence run, not by a theorem",
+                    "workspaces where a path is used both as file and as directory during one push are outside the generator (save order = HashMap order)"],
+}
+
+
 def field(line, name):
     m = re.search(r'(?:^| )' + re.escape(name) + r'=(\S*)', line)
     return m.group(1) if m else None
